@@ -79,6 +79,9 @@ func RacePost(testName string) func(tier string, seed int64) ([]VRec, map[string
 		for sig, d := range bySig {
 			vs = append(vs, VRec{Sig: sig, Detail: d, Scenario: "race-pass/" + testName, Case: "free-running -race pass"})
 		}
+		if i := strings.Index(string(out), "@@HANG"); i >= 0 {
+			vs = append(vs, VRec{Sig: "race-pass:hang:" + testName, Detail: trunc(string(out)[i:], 3000), Scenario: "race-pass/" + testName, Case: "free-running -race pass"})
+		}
 		var ee []string
 		if runErr != nil && len(vs) == 0 && !strings.Contains(string(out), "race detected") {
 			ee = append(ee, "race leg failed: "+runErr.Error()+": "+trunc(string(out), 1500))
